@@ -123,7 +123,9 @@ def widen(rng, node):
             opts.append(['cont', 'Tuple', ['union', node[1]]] if len(node[1]) > 1 and all(x[0] != 'union' for x in node[1])
                         and len({json.dumps(x) for x in node[1]}) > 1 else ['cont', 'Tuple', node[1][0]])
     elif t == 'annot':
-        opts += [node[1], ['annot', node[1], node[2][:1]]]
+        opts += [node[1], ['annot', node[1], node[2][:1]],
+                 ['annot', ['cls', rng.choice(['int', 'str', 'bool', 'object', 'UserA'])], node[2]],
+                 ['annot', ['cls', rng.choice(['int', 'str', 'bool'])], node[2]]]
     elif t == 'union':
         opts += [['union', node[1] + [['cls', 'bytes']]]] if ['cls', 'bytes'] not in node[1] else []
     elif t == 'type':
@@ -133,8 +135,17 @@ def widen(rng, node):
     return sanitise(rng.choice(opts))
 
 
+CLASH = [['union', [['cont', 'Collection', ['cls', 'str']], ['map', 'Dict', ['cls', 'str'], ['cls', 'int']]]],
+         ['union', [['map', 'Mapping', ['cls', 'int'], ['cls', 'str']], ['cont', 'Iterable', ['cls', 'int']], ['cls', 'bytes']]],
+         ['cont', 'List', ['union', [['cont', 'Container', ['cls', 'str']], ['map', 'OrderedDict', ['cls', 'str'], ['cls', 'int']]]]]]
+
+
 def gen_triple(rng, depth):
     a = sanitise(IR.gen_hint(rng, rng.choice([0, 1, 1, 2, 2, depth])))
+    if rng.random() < 0.04:
+        a = rng.choice(CLASH)
+    elif rng.random() < 0.08:
+        a = ['annot', ['cls', rng.choice(['str', 'int', 'UserB'])], [IR.gen_vexp(rng, 1)]]
     def derive(h):
         r = rng.random()
         if r < 0.2:
@@ -177,8 +188,13 @@ def run(ctx):
         except CoqFailure as e2:
             ctx.broken('corr/c19 model does not build', e2.log)
             return
-    n = {'quick': 400, 'thorough': 12000}[ctx.tier]
+    n = {'quick': 700, 'thorough': 20000}[ctx.tier]
     triples = [gen_triple(ctx.rng, 3) for _ in range(n)]
+    cdir = os.path.join(os.path.dirname(os.path.dirname(os.path.dirname(os.path.abspath(__file__)))), 'corpus', 'C19')
+    if os.path.isdir(cdir):
+        for f in sorted(os.listdir(cdir)):
+            with open(os.path.join(cdir, f)) as fh:
+                triples.insert(0, json.load(fh)['hints'])
     failures, rows, index = 0, [], []
     for lo in range(0, len(triples), 200):
         part = triples[lo:lo + 200]
@@ -206,7 +222,8 @@ def run(ctx):
             # order laws and soundness, directly on the implementation
             for i in range(3):
                 if P[f'{i}{i}'] != 'T':
-                    failures += report(ctx, {'clause': 'reflexivity', 'root': hs[i][0]}, {'hint': hs[i], 'answer': P[f'{i}{i}']},
+                    failures += report(ctx, {'clause': 'reflexivity', 'root': hs[i][0], 'answer': P[f'{i}{i}'][:1]},
+                                       {'hint': hs[i], 'answer': P[f'{i}{i}']},
                                        'is_subhint(A, A) is not True')
             for i in range(3):
                 for j in range(3):
@@ -226,10 +243,16 @@ def run(ctx):
                                            'is_subhint(A, B) holds but an object satisfying A does not satisfy B')
             for h, co in zip(hs, res.get('coherence', [])):
                 bad = [k for k, v in co.items() if v is False or k == 'error']
-                if bad:
+                if bad and str(co.get('error', '')).startswith('BeartypeDoorIsSubhintException'):
+                    # TypeHint(h) == TypeHint(h) raising is the partiality of is_subhint (same finding as reflexivity)
+                    failures += report(ctx, {'clause': 'reflexivity', 'root': h[0], 'answer': 'X'}, {'hint': h, 'observed': co},
+                                       'TypeHint(h) == TypeHint(h) raises BeartypeDoorIsSubhintException')
+                elif bad:
                     failures += report(ctx, {'clause': 'wrapper_coherence', 'which': bad[0]}, {'hint': h, 'observed': co},
                                        'TypeHint wrapper is not coherent: ' + bad[0])
             for e in res.get('equal_pairs', []):
+                if e.get('error') == 'BeartypeDoorIsSubhintException':
+                    continue        # reported above as the partiality finding when it concerns h vs h
                 if e.get('error') or not e.get('hash_eq') or not e.get('mutual'):
                     failures += report(ctx, {'clause': 'equal_wrappers', 'which': 'hash' if not e.get('hash_eq') else 'mutual'},
                                        {'A': hs[e['i']], 'B': hs[e['j']], 'observed': e},
